@@ -63,6 +63,7 @@ TStep ==
           /\ Chk("C07", "EscrowExplained", EscrowExplained(MS', G'), e)
           /\ Chk("C07", "BurnExact", BurnExact(MS', G'), e)
           /\ Chk("C07", "EndLegit", EndLegit, e)
+          /\ Chk("C07", "TerminationEndsDeals", TerminationEndsDeals, e)
           /\ Chk("C08", "IdsFresh", IdsFresh, e)
           /\ Chk("C08", "NoTwinDeals", NoTwinDeals(MS'), e)
           /\ Chk("C08", "PendingIsLive", PendingIsLive(MS'), e)
@@ -70,6 +71,7 @@ TStep ==
           /\ Chk("C08", "PublishFunded", PublishFunded, e)
           /\ Chk("C08", "ActivationRules", ActivationRules, e)
           /\ Chk("C08", "ActivatedOnce", ActivatedOnce, e)
+          /\ Chk("C08", "ActivatedOnceInCall", ActivatedOnceInCall, e)
           /\ Chk("C06", "RejectedIsNoop", RejectedIsNoop, e)
           /\ Chk("C05", "CronOK", e.a # "Tick" \/ e.cronOK, e)
           /\ (IF Explained(e) THEN TRUE ELSE PrintT(<<"DRIFT", "C06", l, e.a, e.ok>>))
